@@ -89,8 +89,12 @@ def sensitivity(ctx, spec, prop, repo):
                 continue
             prog = Program(tmp)
             nf, nu, msgs = run_obligations(spec, prog, prop)
-            modelled = not str(meta.get("detected_by_check", "")).startswith("NOT DETECTED")
+            status = str(meta.get("detected_by_check", ""))
+            modelled = not status.startswith("NOT DETECTED")
+            closed = status.startswith("ANALYSIS-ERROR")  # recorded as failing closed (exit 2): must at least stay unrecognised
             ctx.count(1, {"seed": name, "findings": nf, "unrecognised": nu, "first": msgs[:2]})
+            if closed and nf == 0 and nu > 0:
+                continue
             if nf == 0 and modelled:
                 ctx.finding("selftest", f"seed {name}", f"checker lost sensitivity: the confirmed property-breaking change {name} "
                             f"({(meta.get('summary') or '')[:120]}) is no longer reported", None, None, details=msgs[:4])
@@ -180,7 +184,41 @@ class ValuesTwin(ast.NodeTransformer):
         return node
 
 
-TWINS = {"renamed-locals": [Renamer], "mirrored-comparisons": [Commuter], "values-to_numpy": [ValuesTwin]}
+class BranchSwap(ast.NodeTransformer):
+    """if c: A else: B  ->  if not c: B else: A   (plain if/else only, no elif chains)"""
+
+    def visit_If(self, node):
+        self.generic_visit(node)
+        if node.orelse and not (len(node.orelse) == 1 and isinstance(node.orelse[0], ast.If)) \
+                and not (len(node.body) == 1 and isinstance(node.body[0], ast.If)):
+            return ast.copy_location(ast.If(test=ast.UnaryOp(op=ast.Not(), operand=node.test), body=node.orelse, orelse=node.body), node)
+        return node
+
+
+class ReturnTemp(ast.NodeTransformer):
+    """return <expr>  ->  _ret_tw = <expr>; return _ret_tw   (non-trivial expressions, outside lambdas)"""
+
+    def _fix(self, body):
+        out = []
+        for st in body:
+            if isinstance(st, ast.Return) and st.value is not None and not isinstance(st.value, (ast.Name, ast.Constant, ast.Tuple)):
+                out.append(ast.copy_location(ast.Assign(targets=[ast.Name(id="_ret_tw", ctx=ast.Store())], value=st.value), st))
+                out.append(ast.copy_location(ast.Return(value=ast.Name(id="_ret_tw", ctx=ast.Load())), st))
+            else:
+                out.append(st)
+        return out
+
+    def generic_visit(self, node):
+        super().generic_visit(node)
+        for fld in ("body", "orelse", "finalbody"):
+            b = getattr(node, fld, None)
+            if isinstance(b, list) and b and isinstance(b[0], ast.stmt):
+                setattr(node, fld, self._fix(b))
+        return node
+
+
+TWINS = {"renamed-locals": [Renamer], "mirrored-comparisons": [Commuter], "values-to_numpy": [ValuesTwin], "swapped-branches": [BranchSwap],
+         "return-through-temporary": [ReturnTemp]}
 
 
 def make_twin(repo, transformers, only_files):
